@@ -46,6 +46,11 @@ def build(decls, stmts, xdp_min=None):
             if amap is None:
                 amap = ns["vmap"] = ArrayMap()
             ns[name] = amap.globalVar(fmt)
+        elif storage == "hash":
+            from ebpfcat.hashmap import HashMap
+            if "hmap" not in ns:
+                ns["hmap"] = HashMap()
+            ns[name] = ns["hmap"].globalVar(fmt)
         elif storage == "packet":
             ns[name] = PacketVar(fmt[0], fmt[1])
     base = XDP if xdp_min is not None else EBPF
@@ -71,7 +76,11 @@ def build(decls, stmts, xdp_min=None):
         except (AssembleError, AssertionError, TypeError, ValueError, KeyError, AttributeError, struct.error, OverflowError, ZeroDivisionError) as ex:
             res.error = f"{type(ex).__name__}: {ex}"
             return res
-        fds = {fd: k for k, fd in enumerate(kernel.maps)}
+        fds = {}
+        for fd, m in kernel.maps.items():
+            # array maps are numbered 0, 1, ...; hash maps get the pseudo descriptors 100, 101, ... of Corr/C09.v
+            kind = m["type"]
+            fds[fd] = (100 + sum(1 for v in fds.values() if v >= 100)) if kind == "HASH" else sum(1 for v in fds.values() if v < 100)
     instrs = []
     for ins in ops:
         if ins is None:
@@ -89,6 +98,8 @@ def build(decls, stmts, xdp_min=None):
             res.layout[name] = ("local", fmt, d.relative_addr)
         elif storage == "array":
             res.layout[name] = ("array", fmt, e.__dict__[name])
+        elif storage == "hash":
+            res.layout[name] = ("hash", fmt, d.count)
         else:
             res.layout[name] = ("packet", fmt[1], fmt[0])
     res.stack_size = -cls.stack
@@ -125,6 +136,8 @@ def bcond(e, c):
         return ~bcond(e, c[1])
     if t == "bit":
         return bexpr(e, c[1]) != 0
+    if t == "xcmp":                # comparison of a fixed-point variable: [xcmp, op, name, rhs expr]
+        return CMPS[c[1]](getattr(e, c[2]), bexpr(e, c[3]))
     if t == "truth":               # a bare expression used as the condition of a with-block
         return bexpr(e, c[1])
     return CMPS[t](bexpr(e, c[1]), bexpr(e, c[2]))
@@ -147,10 +160,8 @@ def run_stmts(e, stmts):
             tgt = s[1]
             val = bexpr(e, s[2])
             if tgt[0] == "v":
-                cur = getattr(e, tgt[1])
-                cur = cur.__iadd__(val) if t == "iadd" else cur.__isub__(val)
-                if cur is NotImplemented:
-                    cur = (getattr(e, tgt[1]) + val) if t == "iadd" else (getattr(e, tgt[1]) - val)
+                cur = getattr(e, tgt[1])             # Python's own semantics of  e.v += val
+                cur = operator.iadd(cur, val) if t == "iadd" else operator.isub(cur, val)
                 setattr(e, tgt[1], cur)
             else:
                 r = get_reg(e, tgt[1], tgt[2])
